@@ -10,12 +10,16 @@ import (
 	"io"
 	"os"
 	"runtime/coverage"
+	"runtime/debug"
 
 	"verif/hostkit"
 	"verif/sb"
 )
 
 func main() {
+	// Runaway recursion in the repository's code ends as "stack exceeds limit" either way; a quarter of Go's
+	// default limit (1 GB) gets there sooner and keeps sixteen such workers from exhausting the machine.
+	debug.SetMaxStack(256 << 20)
 	in := bufio.NewReader(os.NewFile(3, "req"))
 	out := os.NewFile(4, "resp")
 	// Repository code prints debugging text to stdout; keep it out of the way.
